@@ -39,7 +39,7 @@ def make_closure(sig, k, r, kind=None):
             ty = r.choice(['zz_a', 'zz_b', 'zz_a', ''])
             a = {'id': str(base + 20 + j)}
         elif c == 'a':
-            a = {'vals': list(r.choice(ARRS))}
+            a = {'vals': list(r.choice(ARRS)), 'extra': r.choice([0, 0, 0, 1, 2, 3])}
         types.append(ty)
         args.append(a)
     return {'name': 'm%d' % k, 'sig': list(sig), 'types': types, 'sender': str(base + 39), 'kind': kind,
@@ -68,7 +68,7 @@ def scenario_lines(closures):
             elif code == 'n':
                 toks.append('%d:%s' % (idx[ty] if ty else 1, a['id']) if c['kind'] == 0 else a['id'])
             elif code == 'a':
-                toks.append('%d:%s' % (len(a['vals']), ','.join(a['vals'])))
+                toks.append('%d%s:%s' % (len(a['vals']), '+%d' % a['extra'] if a.get('extra') else '', ','.join(a['vals'])))
         lines.append('C %d %d 0 %d %s %d %d %s' % (c['kind'], k % 3, k, c['sender'], idx[c['ttype']], len(codes), ' '.join(toks)))
         ops[len(lines)] = k
     return lines, ops
@@ -120,7 +120,7 @@ def abstract_line(c):
         elif code == 'n':
             args.append({'k': 'new', 'type': ty, 'id': int(a['id'])})
         elif code == 'a':
-            args.append({'k': 'array', 'n': 4 * len(a['vals'])})
+            args.append({'k': 'array', 'n': 4 * len(a['vals']) + a.get('extra', 0)})
     return {'tag': '', 't': 1000, 'm': {'ttype': c['ttype'], 'tid': int(c['sender']), 'name': c['name'], 'sent': c['kind'] in (3, 4), 'args': args}}
 
 
